@@ -182,4 +182,29 @@ def run(tier, seed):
         res.broken.append(("harness build (asan)", err))
     else:
         memory_campaign(res, ha, seed, tier, "asan")
+    # thread-indexed scratch: the Merkle builders and the transforms with MORE members requested than omp_get_max_threads()
+    # (what a process-wide omp_set_num_threads(2) by an earlier transform leaves behind), under ASan on the stand-in runtime
+    hq, err = build_harness("asanseq")
+    if err:
+        res.broken.append(("harness build (asanseq)", err))
+    else:
+        C12 = importlib.import_module("props.C12")
+        rng = Rng(seed ^ 0x18AA)
+        reqs = []
+        for l, key in memory_lines(seed, tier):
+            if key not in ("merkle", "ntt-history") and not (key == "ntt" and rng.below(8) == 0):
+                continue
+            b = C12.with_threads(l.replace("!^", "").lstrip("!"), rng.choice([5, 8]))
+            if b is not None and (key != "merkle" or rng.below(2)):
+                reqs.append(("@0:2:%x %s" % (rng.below(1 << 30), b), key))
+        env = dict(os.environ)
+        env["ASAN_OPTIONS"] = "detect_leaks=1:alloc_dealloc_mismatch=1:abort_on_error=0:exitcode=77"
+        env["UBSAN_OPTIONS"] = "halt_on_error=1:exitcode=78"
+        out = run_parallel(hq, [r[0] for r in reqs], env=env, timeout=1800)
+        for (rq, key), r in zip(reqs, out):
+            res.note_case("asanseq:" + rq[:200], "asanseq:" + key)
+            if r is None or BAD.search(r):
+                res.failures.append({"key": "memory:" + key, "lines": [rq[:8000]], "expected": "no sanitizer report with more team members requested than omp_get_max_threads()",
+                                     "observed": (r or "no reply")[:400], "note": "ASan+UBSan build over the stand-in OpenMP runtime (max threads 2, 5-8 requested)"})
+        res.extra["memory_campaign_asanseq"] = len(reqs)
     return res.finish()
